@@ -22,18 +22,18 @@ theorem depth_limit : maxValueDepth = 32 := by decide
 /-- Round trip, both epochs: a well-formed value of depth ≤ 32 serializes, and decoding the bytes
 yields exactly that value and consumes exactly all bytes (`decodeTop` fails on trailing bytes). -/
 theorem roundtrip (ep : Epoch) (v : Value) (hw : v.WF) (hd : v.depth ≤ maxValueDepth) :
-    ∃ bs, encodeTop ep v = .ok bs ∧ decodeTop true bs = .ok v := by
+    ∃ bs, encodeTop ep v = .ok bs ∧ decodeTop .std bs = .ok v := by
   refine ⟨encRaw ep v, ?_, ?_⟩
   · simp [encodeTop, enc, encCheck_wf ep v 0 hw, hd]
-  · have h := dec_encRaw true ep v 0 [] (fuelFor (encRaw ep v)) hw (by omega) (by unfold fuelFor; omega)
+  · have h := dec_encRaw .std ep (fun _ => rfl) v 0 [] (fuelFor (encRaw ep v)) hw (by omega) (by unfold fuelFor; omega)
     simp only [List.append_nil] at h
     simp [decodeTop, h]
 
 /-- The decoder is insensitive to what follows the value: it consumes exactly the value's bytes. -/
 theorem roundtrip_prefix (ep : Epoch) (v : Value) (hw : v.WF) (hd : v.depth ≤ maxValueDepth)
     (rest : Bytes) :
-    dec true (fuelFor (encRaw ep v ++ rest)) (encRaw ep v ++ rest) 0 = .ok (v, rest) :=
-  dec_encRaw true ep v 0 rest _ hw (by omega) (by unfold fuelFor; simp; omega)
+    dec .std (fuelFor (encRaw ep v ++ rest)) (encRaw ep v ++ rest) 0 = .ok (v, rest) :=
+  dec_encRaw .std ep (fun _ => rfl) v 0 rest _ hw (by omega) (by unfold fuelFor; simp; omega)
 
 /-- Serialization rejects a value nested deeper than the limit with the nesting error. -/
 theorem too_deep_ser (ep : Epoch) (v : Value) (hw : v.WF) (hd : v.depth > maxValueDepth) :
@@ -44,8 +44,8 @@ theorem too_deep_ser (ep : Epoch) (v : Value) (hw : v.WF) (hd : v.depth > maxVal
 /-- Symmetrically, deserializing the encoding of such a value (written without the limit) is
 rejected with the nesting error. -/
 theorem too_deep_de (ep : Epoch) (v : Value) (hw : v.WF) (hd : v.depth > maxValueDepth) :
-    decodeTop true (encRaw ep v) = .error .tooDeep := by
-  have h := dec_tooDeep true ep v 0 [] (fuelFor (encRaw ep v)) hw (by omega) (by unfold fuelFor; omega)
+    decodeTop .std (encRaw ep v) = .error .tooDeep := by
+  have h := dec_tooDeep .std ep (fun _ => rfl) v 0 [] (fuelFor (encRaw ep v)) hw (by omega) (by unfold fuelFor; omega)
   simp only [List.append_nil] at h
   simp [decodeTop, h]
 
@@ -60,8 +60,8 @@ theorem ser_fails_only_too_deep (ep : Epoch) (v : Value) (hw : v.WF) (e : SerErr
 
 /-- "Never by stack exhaustion", model level: with the standard budget the decoder never stops
 because the budget ran out, on any input — its recursion is bounded by the input length — … -/
-theorem decode_terminates (utf8 : Bool) (bs : Bytes) : decodeTop utf8 bs ≠ .error .fuel := by
-  have := dec_total utf8 bs 0
+theorem decode_terminates (cfg : DecCfg) (bs : Bytes) : decodeTop cfg bs ≠ .error .fuel := by
+  have := dec_total cfg bs 0
   unfold decodeTop
   split
   · rename_i e h; intro he; simp at he; subst he; exact this h
